@@ -16,6 +16,7 @@ static int q, nprod, per, npops;
 static mpsc_fifo_t mq;
 static spsc_fifo_t sq;
 static int recycle;
+extern void fmc_fence(void);
 static void* pool[8];
 static int npool;
 GHOST static void give_back(void* n) { if (npool < 8) pool[npool++] = n; }
@@ -78,7 +79,11 @@ static intptr_t pop_val(void) {
     spsc_node_t* n = q == 1 ? spsc_fifo_trypop(&sq) : mpscr_fifo_trypop(rq);
     if (n) {
       v = (intptr_t)n->data;
-      if (recycle) give_back(n);
+      // the hand-over of the node to the producer stands for a real message to another thread: on
+      // x86 it can only be seen after every earlier store of this thread (FIFO store buffer), so the
+      // buffer is drained first - a ghost hand-over that overtook a delayed store to the node was a
+      // false alarm of the thorough tier (P2 + one delayed store)
+      if (recycle) { fmc_fence(); give_back(n); }
       else free(n);
     }
   }
